@@ -155,9 +155,12 @@ fn parse_source_square(game: &Game, src: &str, dst: Square) -> Result<Square, Pa
 
     let ambiguity_resolution = parse_ambiguity_resolution(&src_chars)?;
 
+    // No piece letter, so this is a pawn move
     let matching_source_squares: Vec<Square> = piece_moves
         .into_iter()
-        .filter(|&(_, mv)| mv.dst() == dst && ambiguity_resolution.satisfied_by(mv))
+        .filter(|&(piece, mv)| {
+            piece == PieceKind::Pawn && mv.dst() == dst && ambiguity_resolution.satisfied_by(mv)
+        })
         .map(|(_, mv)| mv.src())
         .collect();
 
